@@ -440,7 +440,7 @@ def scenario_lines(cfg: Dict) -> List[str]:
             raise Unmodelled(f"node type {t}")
         known = {"hostname", "type", "operating_state", "start_up_duration", "shut_down_duration", "dns_server", "default_gateway",
                  "ip_address", "subnet_mask", "network_interfaces", "services", "applications", "users", "folders", "num_ports", "ports",
-                 "acl", "routes", "default_route", "router_interface", "wireless_access_point"}
+                 "acl", "routes", "default_route", "router_interface", "wireless_access_point", "node_scan_duration"}
         if t == "wireless-router" and (n.get("ports") or n.get("num_ports")):
             raise Unmodelled("wireless router with wired ports")
         extra = set(n) - known
@@ -449,6 +449,8 @@ def scenario_lines(cfg: Dict) -> List[str]:
         lines.append(f"node {t} {tok(n['hostname'])} {_state(n.get('operating_state'))} {_o(n.get('start_up_duration'))} "
                      f"{_o(n.get('shut_down_duration'))} {_ipt(n.get('dns_server'))} {_ipt(n.get('default_gateway'))} "
                      f"{_ipt(n.get('ip_address'))} {_ipt(n.get('subnet_mask'))} {_o(n.get('num_ports'))}")
+        if "node_scan_duration" in n:
+            lines.append(f"nodescan {int(n['node_scan_duration'])}")
         if t == "firewall":
             for k, v in (n.get("ports") or {}).items():
                 lines.append(f"fwport {k} {v['ip_address']} {_ipt(v.get('subnet_mask'))}")
